@@ -18,7 +18,10 @@
  * In buffer mode the caller's input buffer must be byte-identical after all reads, column_reader_free and reader_close.
  * NEGATIVE obligations (VQ_NEG): 1 DATA_PAGE_V2, 2 an encoding carquet's page reader does not implement (symx_choice over
  * DELTA_BINARY_PACKED, DELTA_LENGTH_BYTE_ARRAY, DELTA_BYTE_ARRAY, BYTE_STREAM_SPLIT, RLE, BIT_PACKED), 3 a codec id it does
- * not implement (LZO, BROTLI, 8, 100): open / get_column / read_batch must report an error, never data. */
+ * not implement (LZO, BROTLI, 8, 100): open / get_column / read_batch must report an error, never data.
+ * VQ_V2RAW: the v2 pages carry is_compressed = false (values stored raw under the chunk codec).
+ * GZIP / ZSTD are left out: the engine runs carquet's wrappers against library contract stubs, so a value round trip through
+ * them would prove nothing. */
 #include "pq_common.h"
 #include "ref_parquet_write.h"
 
@@ -124,7 +127,6 @@
 #define ANYDICT ((VQ_ENC0 != REF_ENC_PLAIN) || (VQ_NPAGES > 1 && VQ_ENC1 != REF_ENC_PLAIN) || (VQ_NPAGES > 2 && VQ_ENC2 != REF_ENC_PLAIN))
 #define DICT (ANYDICT && VQ_NEG != 2)
 #define NTOT (VQ_NLV0 + (VQ_NPAGES > 1 ? VQ_NLV1 : 0) + (VQ_NPAGES > 2 ? VQ_NLV2 : 0))
-#define NLVMAX 20
 #define VSLOT 12                      /* bytes of symbolic material per value / dictionary entry */
 
 /* ---- schemas: path below the root, outermost first */
